@@ -80,7 +80,7 @@ _with("w_dyn", "dyn", "25", THOROUGH, classes=USER)
 # dependencies of the generated class universes (GEN_KEYS), supplied by a specifier
 for _k, _v in (("y1", "111"), ("y2", "222"), ("y3", "333"), ("y4", "444")):
     _with("w_" + _k, _k, _v, TABLE, classes=())
-GEN_KEYS = ("w_y1", "w_y2", "w_y3", "w_y4", "w_foo")
+GEN_KEYS = {"chain": ("w_y1", "w_y2", "w_y3", "w_foo"), "mi": ("w_y1", "w_y2", "w_y3", "w_y4", "w_foo")}  # (nothing reads y4 in `chain`)
 
 # -- position -----------------------------------------------------------------------
 _p = _pt()
@@ -256,19 +256,24 @@ def _foo_line(opt, cls, k):
 _ROOT_PROPS = (("y1", (), "101"), ("y2", (), "202"), ("y3", (), "303"), ("y4", (), "404"))
 
 
-def _chain_universe(alphabet=FOO):
+def _chain_universe(tier):
     """Single inheritance, depth 3: every way of declaring `foo` at every level (plain after
     additive, additive after plain, ...); the leaf also has a second reader `z` of the deep
     dependencies, written after `foo` and (family variant _r) before it."""
-    out = [ClassDef("R0", "Object", _ROOT_PROPS, group="chain", instantiate=False)]
+    # quick: rooted at Point (defining a subclass of Object costs 11 ms in Scenic, of Point
+    # 3 ms; the merging code is the same) and without the constant plain declaration at the
+    # two lower levels (`plain, self.` subsumes it); thorough: everything, rooted at Object
+    quick = tier == "quick"
+    lower = tuple(o for o in FOO if not (quick and o == "P"))
+    out = [ClassDef("R0", "Point" if quick else "Object", _ROOT_PROPS, group="chain", instantiate=False)]
     z = ("z", (), "self.y1 + self.y2 + 1")
-    for o1 in alphabet:
+    for o1 in FOO:
         n1 = f"S_{o1}"
         out.append(ClassDef(n1, "R0", tuple(x for x in (_foo_line(o1, n1, 1),) if x), group="chain", family=n1))
-        for o2 in alphabet:
+        for o2 in lower:
             n2 = f"{n1}_{o2}"
             out.append(ClassDef(n2, n1, tuple(x for x in (_foo_line(o2, n2, 2),) if x), group="chain", family=n2))
-            for o3 in alphabet:
+            for o3 in lower:
                 n3 = f"{n2}_{o3}"
                 f = _foo_line(o3, n3, 3)
                 out.append(ClassDef(n3, n2, tuple(x for x in (f, z) if x), group="chain", family=n3))
@@ -286,7 +291,7 @@ def _mi_universe(tier):
     out = []
     for r, rline in (("0", None), ("1", ("foo", ("additive",), "self.y4"))):
         root = f"R{r}m"
-        out.append(ClassDef(root, "Object", _ROOT_PROPS + ((rline,) if rline else ()), group="mi", instantiate=False))
+        out.append(ClassDef(root, "Point" if tier == "quick" else "Object", _ROOT_PROPS + ((rline,) if rline else ()), group="mi", instantiate=False))
         for i in ij:
             n = f"U{r}_{i}"
             props = tuple(x for x in (_foo_line(i, n, 1),) if x) + (("fin", ("final",), "self.y1 + 10"), ("w", (), "self.y1 * 2"))
@@ -296,8 +301,10 @@ def _mi_universe(tier):
             props = (("dyn", ("dynamic",), "self.y2 + 20"), ("w", (), "self.y2 * 3")) + tuple(x for x in (_foo_line(j, n, 2),) if x)
             out.append(ClassDef(n, root, props, group="mi", family=n))
         z = ("z", (), "self.y1 + self.y2 + self.y4 + 1")
-        for i in ij:
-            for j in ij:
+        # (partners that declare `foo` with a dependency first: a base class combined with one
+        # partner must not change what it contributes when combined with the next)
+        for i in reversed(ij):
+            for j in reversed(ij):
                 for c in cs:
                     for tag, bases in (("uv", (f"U{r}_{i}", f"V{r}_{j}")), ("vu", (f"V{r}_{j}", f"U{r}_{i}"))):
                         n = f"M{r}_{i}_{j}_{c}_{tag}"
@@ -312,9 +319,9 @@ _GEN_CACHE = {}
 
 
 def generated(group: str, tier: str) -> List[ClassDef]:
-    key = (group, tier if group == "mi" else "")
+    key = (group, "quick" if tier == "quick" else "thorough")
     if key not in _GEN_CACHE:
-        _GEN_CACHE[key] = _chain_universe() if group == "chain" else _mi_universe(tier)
+        _GEN_CACHE[key] = _chain_universe(tier) if group == "chain" else _mi_universe(tier)
     return _GEN_CACHE[key]
 
 
@@ -337,6 +344,8 @@ def class_text(c: ClassDef) -> str:
     for prop, attrs, expr in c.props:
         a = f"[{', '.join(attrs)}]" if attrs else ""
         lines.append(f"    {prop}{a}: {expr}")
+    if not c.props:
+        lines.append("    pass")
     return "\n".join(lines)
 
 
@@ -430,7 +439,7 @@ def plan_generated(tier: str):
                 if not c.instantiate or mode2D not in c.modes:
                     continue
                 for size in (0, 1) if tier == "quick" else (0, 1, 2):
-                    for ms in multisets(list(GEN_KEYS), size):
+                    for ms in multisets(list(GEN_KEYS[group]), size):
                         out.append((group, c.name, mode2D, ms))
     return out
 
